@@ -492,6 +492,28 @@ class Interp:
             if any(n == 'Exception' for n in names):
                 return True
             raise Unsupported('except clause against exception of unknown class', h)
+        if exc.cls == 'OSError' and isinstance(exc.attrs.get('errno'), VInt):
+            # CPython picks the OSError subclass from errno (PEP 3151)
+            import errno as _e
+            table = {'FileNotFoundError': (_e.ENOENT,), 'PermissionError': (_e.EACCES, _e.EPERM),
+                     'FileExistsError': (_e.EEXIST,), 'NotADirectoryError': (_e.ENOTDIR,),
+                     'IsADirectoryError': (_e.EISDIR,), 'InterruptedError': (_e.EINTR,),
+                     'BlockingIOError': (_e.EAGAIN, _e.EALREADY, _e.EWOULDBLOCK, _e.EINPROGRESS),
+                     'BrokenPipeError': (_e.EPIPE, _e.ESHUTDOWN), 'ChildProcessError': (_e.ECHILD,),
+                     'ProcessLookupError': (_e.ESRCH,), 'TimeoutError': (_e.ETIMEDOUT,),
+                     'ConnectionRefusedError': (_e.ECONNREFUSED,), 'ConnectionResetError': (_e.ECONNRESET,),
+                     'ConnectionAbortedError': (_e.ECONNABORTED,)}
+            en = exc.attrs['errno'].t
+            for n in names:
+                if n in ('OSError', 'Exception', 'BaseException', 'EnvironmentError', 'IOError'):
+                    return True
+                if n in table:
+                    if self.ctx.branch(z3.Or(*[en == v for v in table[n]]), 'errno-is-' + n):
+                        exc.cls = n
+                        return True
+                elif n == 'ConnectionError':
+                    raise Unsupported('except ConnectionError', h)
+            return False
         return any(self.engine.exc_isinstance(exc.cls, n) for n in names)
 
     def st_With(self, st, fr):
